@@ -529,6 +529,17 @@ def run_case(inp):
             lst = pipe.from_arrays([img, img * 2], original_scale=orig)(orig)
             if len(lst) != 2 or not _same(lst[1], img * 2):
                 V("rescale-identity", "from_arrays at its own scale")
+            # a provider is a function of the scale alone: the SAME provider object evaluated again (same scale, another
+            # scale, then the first scale again) gives what a fresh provider / the per-image providers give
+            prov = pipe.from_arrays([img, img * 2, img + 1], original_scale=orig)
+            for k_, sc_ in enumerate((orig, orig * 2, orig)):
+                got_ = prov(sc_)
+                want_ = [np.asarray(pipe.from_array(a_, original_scale=orig)(sc_)) for a_ in (img, img * 2, img + 1)]
+                if len(got_) != 3 or any(np.asarray(g_).shape != w_.shape or not np.allclose(np.asarray(g_), w_, atol=1e-5, equal_nan=True)
+                                         for g_, w_ in zip(got_, want_)):
+                    V("provider-function", f"from_arrays provider evaluated for the {k_ + 1}. time (scale {sc_}) returned {len(got_)} images / "
+                                           "values that differ from the per-image from_array providers")
+                    break
         elif kind == "files":
             # providers that read files: every file is rescaled from ITS OWN pixel size (header) unless one is given
             import os
